@@ -3,7 +3,7 @@ import datetime, hashlib, json, os
 from vlib import common, coq, gobuild, gw, s3c, e2e, gen
 from vlib.common import coq_str, coq_list, coq_bool, coq_opt
 
-THEOREMS = ["C10_allowed_means_unprotected", "C10_protected_version_survives", "C10_compliance_never_weakened", "C10_governance_needs_bypass_permission", "C10_retention_overwrite_rule", "C10_destructive_routes_checked"]
+THEOREMS = ["C10_allowed_means_unprotected", "C10_protected_version_survives", "C10_compliance_never_weakened", "C10_governance_needs_bypass_permission", "C10_retention_overwrite_rule", "C10_default_rule_protects", "C10_destructive_routes_checked"]
 TARGETS = ["Properties/C10.vo", "Check/LockCheck.vo", "Check/LockRouteCheck.vo"]
 P = b"protected-content-" + bytes(range(40))
 OTHER = b"attacker-content"
